@@ -182,7 +182,8 @@ def main(tier):
                     if nviol < 3:
                         nviol += 1
                         ck.violation("complexity of %s is %d but one plus its live decision points (if/elif tests, loops, except handlers, "
-                                     "comprehension clauses) is %d" % (name, c, rec["mccabe"]),
+                                     "comprehension clauses) is %d%s" % (name, c, rec["mccabe"], "" if not sur else
+                                     " (%d of the difference are the if clauses of known finding F8, the rest is not)" % sur),
                                      {"kind": "mccabe", "file": m["path"], "source": m["lines"], "function": name, "impl": c,
                                       "spec_mccabe": rec["mccabe"], "model": rec["cx"], "dead_statements": sorted(model_dead),
                                       "surplus_if_clauses_of_live_comprehensions(F8)": sur})
